@@ -204,7 +204,14 @@ func genRoutine(x *sched.Exec) rtScenario {
 					if r.Intn(5) == 0 {
 						prog = append(prog, rtOp{Op: "setsr"})
 					} else {
-						prog = append(prog, rtOp{Op: "setstate", S: r.Intn(4)})
+						op := rtOp{Op: "setstate", S: r.Intn(4)}
+						if op.S > 0 && r.Intn(4) == 0 {
+							op.S += 10 // equal to S under the container's compare function, not identical
+						}
+						if r.Intn(4) == 0 {
+							op.Op = "swapstate" // SwapValue(func(_) { return S })
+						}
+						prog = append(prog, op)
 					}
 				} else {
 					nf++
@@ -380,6 +387,11 @@ func (d *rtDriver) opFunc(c *rtClient, pi int, op rtOp) sched.Op {
 			wch, changed, reset, running := d.sr.SetState(op.S)
 			x.Log(trace.E{"ev": "ret", "id": id, "xid": xid, "op": op.Op, "changed": changed, "reset": reset, "running": running, "ch": d.regCh(wch), "actor": c.c.Name})
 			snap()
+		case "swapstate": // the monitor sees it as a SetState
+			x.Log(trace.E{"ev": "call", "id": id, "op": "setstate", "s": op.S, "actor": c.c.Name, "swap": true})
+			_, wch, changed, reset, running := d.sr.SwapValue(func(int) int { return op.S })
+			x.Log(trace.E{"ev": "ret", "id": id, "xid": xid, "op": "setstate", "changed": changed, "reset": reset, "running": running, "ch": d.regCh(wch), "actor": c.c.Name})
+			snap()
 		case "setsr":
 			x.Log(trace.E{"ev": "call", "id": id, "op": op.Op, "actor": c.c.Name})
 			wch, reset, running := d.sr.SetStateRoutine(func(ctx context.Context, st int) error { return d.body(-1, st)(ctx) })
@@ -451,6 +463,16 @@ func (d *rtDriver) Run(x *sched.Exec, raw json.RawMessage) json.RawMessage {
 	if x.LogSteps {
 		// X-level trace validation: Routine.tla models the scripted backoff and bounded 7 ms ticks only
 		d.sc.BoConf, d.sc.BigTick = "", false
+		for _, prog := range d.sc.Clients { // ... and identical states, SetState only
+			for i := range prog {
+				if prog[i].Op == "swapstate" {
+					prog[i].Op = "setstate"
+				}
+				if prog[i].Op == "setstate" {
+					prog[i].S %= 10
+				}
+			}
+		}
 	}
 	sc := d.sc
 	out, _ := json.Marshal(sc)
@@ -479,7 +501,8 @@ func (d *rtDriver) Run(x *sched.Exec, raw json.RawMessage) json.RawMessage {
 	}
 	x.Log(trace.E{"ev": "config", "variant": sc.Variant, "retry": sc.Retry, "seq": sc.Seq, "burst": sc.Burst, "boconf": sc.BoConf})
 	if sc.Variant == "state" {
-		d.sr = routine.NewStateRoutineContainer[int](func(a, b int) bool { return a == b }, opts...)
+		// states are compared modulo 10: s and s+10 are equal for the container although not identical
+		d.sr = routine.NewStateRoutineContainer[int](func(a, b int) bool { return a%10 == b%10 }, opts...)
 		d.sr.SetStateRoutine(func(ctx context.Context, st int) error { return d.body(-1, st)(ctx) })
 	} else {
 		d.rc = routine.NewRoutineContainer(opts...)
